@@ -96,8 +96,15 @@ fn c12_proofs() -> R {
         2 => {
             // verifiers with another root digest never accept
             for v in [build(&n(l(900), vec![a(l(901), l(902))])), e.wrap_envelope(), e.subject().elide(), e.add_assertion("extra", "assertion")] {
-                if dg(&v) != dg(&e) { ensure!(!v.confirm_contains_set(&tset, &p), "verifier accepted a proof whose root digest differs from its own", ""); }
+                if dg(&v) != dg(&e) {
+                    ensure!(!v.confirm_contains_set(&tset, &p), "verifier accepted a proof whose root digest differs from its own", "");
+                    // the single-target form, also with the verifier's own root as the target
+                    ensure!(!v.confirm_contains_target(&Digest::from_data(dg(&v)), &p), "verifier accepted a proof whose root digest differs from its own", "single-target form, target = the verifier's root");
+                    for d in t.iter().take(1) { ensure!(!v.confirm_contains_target(&Digest::from_data(*d), &p), "verifier accepted a proof whose root digest differs from its own", "single-target form"); }
+                }
             }
+            ensure!(root_only.confirm_contains_target(&Digest::from_data(dg(&e)), &p), "single-target form rejects the root as target of a valid proof", "");
+            ensure!(!root_only.confirm_contains_target(&Digest::from_data(sha(b"absent digest")), &p), "single-target form accepted an absent target", "");
         }
         3 => {
             // a proof made for an enclosing envelope, presented to the verifier of the inner one (and vice versa)
@@ -226,13 +233,14 @@ fn c15_lookup() -> R {
     for i in 0..nas {
         let p = choice(2) as u32;       // predicate leaf 50 or 51
         let o = 60 + i as u32;          // distinct objects
-        let form = choice(7);
+        let form = choice(8);
         let base = a(l(50 + p), l(o));
         let (sp, visible_pred) = match form {
             0 => (base, true),
             1 => (a(el(l(50 + p)), l(o)), true),                       // elided predicate: still matches by digest
             2 => (a(l(50 + p), el(l(o))), true),                       // elided object
             3 => (n(base, vec![a(l(70 + i as u32), l(80 + i as u32))]), true), // decorated assertion
+            7 => (a(l(50 + p), n(l(o), vec![a(l(70 + i as u32), l(80 + i as u32))])), true), // the object carries assertions of its own
             6 => (n(n(base, vec![a(l(70 + i as u32), l(80 + i as u32))]), vec![a(l(90 + i as u32), l(95 + i as u32))]), false), // assertion under two node levels (decoder / uncompress_subject shape): subject() is not an assertion
             4 => (el(base), false),                                    // whole assertion elided: cannot match
             _ => (co(base), false),
@@ -308,6 +316,12 @@ fn c15_lookup() -> R {
     {
         let r = e.try_object_for_predicate::<String>(query.clone());
         let x = e.extract_object_for_predicate::<String>(query.clone());
+        if want.len() == 1 {
+            // try_* converts the object envelope itself: only a bare leaf converts; a node or an obscured element is an error, never its subject's value
+            let i = (0..nas).find(|i| preds[*i] == Some(q)).unwrap();
+            let inner = match &specs[i] { Spec::Node(sub, _) => (**sub).clone(), y => y.clone() };
+            if let Spec::Assert(_, ob) = &inner { if !matches!(**ob, Spec::Leaf(_)) { ensure!(r.is_err(), "try_object_for_predicate returned a value for an object that is not a bare leaf", "{}", ob.show()); ensure!(e.try_objects_for_predicate::<String>(query.clone()).is_err(), "try_objects_for_predicate returned values for an object that is not a bare leaf", ""); } }
+        }
         if let (Ok(a1), Ok(a2)) = (&r, &x) { ensure!(a1 == a2, "try_object_for_predicate and extract_object_for_predicate return different values", ""); }
         if want.len() != 1 { ensure!(r.is_err(), "try_object_for_predicate without a single match returned a value", ""); }
         let ro = e.try_optional_object_for_predicate::<String>(query.clone());
@@ -408,7 +422,7 @@ pub fn prop_c15() -> Prop {
                 bounds: "every shape of <=8 (quick) / <=10 (thorough) elements with known values + 21 larger shapes + obscured shapes <=5 x both walk modes (visit sequence, level, edge kind, parent threading against a harness traversal of case()) x digests(limit) for every limit 0..depth+2, deep/shallow digests, elements_count, subject/assertions, case predicates x every digest order",
                 api: &["walk", "elements_count", "digests", "deep_digests", "shallow_digests", "subject", "assertions", "has_assertions", "is_*"] },
             Scenario { name: "lookup", f: c15_lookup, thorough_only: false,
-                bounds: "subject with 1..3 assertions, each with predicate from {A, B}, in 7 forms (plain, elided predicate, elided object, decorated, decorated twice, whole assertion elided, whole assertion compressed) x query predicate {A, B, absent} given clear or elided x every digest order: assertions_with_predicate, assertion_with_predicate, optional_*, object(s)_for_predicate, extract_* with none / one / several matches",
+                bounds: "subject with 1..3 assertions, each with predicate from {A, B}, in 8 forms (plain, elided predicate, elided object, object carrying assertions, decorated, decorated twice, whole assertion elided, whole assertion compressed) x query predicate {A, B, absent} given clear or elided x every digest order: assertions_with_predicate, assertion_with_predicate, optional_*, object(s)_for_predicate, extract_* with none / one / several matches",
                 api: &["assertions_with_predicate", "assertion_with_predicate", "optional_assertion_with_predicate", "object_for_predicate", "optional_object_for_predicate", "objects_for_predicate", "extract_object_for_predicate", "extract_objects_for_predicate", "extract_optional_object_for_predicate", "extract_object_for_predicate_with_default"] },
             Scenario { name: "extract", f: c15_extract, thorough_only: false,
                 bounds: "15 stored values x 12 extraction types x 3 holders (bare, subject of a node, object of an assertion): Ok(x) implies x encodes to the stored dCBOR; the stored type extracts; wrapped / known value / elided subjects. Catalogue, not solver-quantified",
